@@ -556,7 +556,19 @@ func checkEntryRefs(c *Check, d *Dispatch) {
 		entry[r.Fn] = true
 	}
 	n := 0
+	// thunks of method expressions stand for the method: the reference that
+	// counts is the one to the thunk
+	for f := range allFuncs(p) {
+		if f.Synthetic != "" && f.Blocks != nil && InRepo(f) {
+			if u := unwrapBound(f); u != f && entry[u] {
+				entry[f] = true
+			}
+		}
+	}
 	for _, fn := range p.AllRepoFuncs() {
+		if fn.Synthetic != "" && entry[fn] {
+			continue // the thunk's own call of the method
+		}
 		allInstrs(fn, func(in ssa.Instruction) {
 			var ops []*ssa.Value
 			for _, op := range in.Operands(ops) {
